@@ -118,6 +118,12 @@ func run(r *core.Run) {
 	if e.want("law3") {
 		e.law3(l1)
 	}
+	if e.want("splice") {
+		e.splice(l1)
+	}
+	if e.want("rangekeys") {
+		e.rangekeys(l1)
+	}
 	if e.want("textual") {
 		e.textual(l1)
 	}
@@ -129,7 +135,7 @@ func parent(r *core.Run) {
 	if os.Getenv("VERIF_ONLY") != "" || os.Getenv("C09_PROBE") != "" {
 		return
 	}
-	nl, no := int64(20), int64(len(unaryOps()))
+	nl, no := int64(numLeaves), int64(len(unaryOps()))
 	d2 := nl + nl*no + nl*nl                // depth <= 2
 	d3 := d2 + (d2-nl)*no + (d2*d2 - nl*nl) // depth <= 3
 	bound := d3
